@@ -476,7 +476,12 @@ def run_c13(w: World, rep: Report):
     depend(rep, w, 'rules_c19', ('C19.R2',), 'C13.TD19',
            'the verdict for a witness does not depend on what the process verified before: no instruction writes '
            'process-global state (C19.R2 re-evaluated)', floor=10)
+    depend(rep, w, 'rules_c05', ('C05.R1', 'C05.R2'), 'C13.TD5',
+           'the graftap lock is an OP_TAPROOT: the committed script runs only on the edge where the recomputed point equals '
+           'the root, every other script-path exit yields false, and the key path checks under the root (C05.R1/R2 '
+           're-evaluated)', floor=8)
     sigfields_plumbed(w, rep, 'C13.T10')
+    signed_message_from_vm(w, rep, 'C13.T11')
     rep.explanation = (
         'Necessary structural conditions for "exactly the intended holder can unlock", decided on the templates '
         'embedded in tools.py by a stack-effect and integrity type system (completeness side: the lock is '
@@ -729,7 +734,12 @@ def run_c15(w: World, rep: Report):
     depend(rep, w, 'rules_c19', ('C19.R2',), 'C15.TD19',
            'the verdict for a witness does not depend on what the process verified before: no instruction writes '
            'process-global state (C19.R2 re-evaluated)', floor=10)
+    depend(rep, w, 'rules_c11', ('C11.R8',), 'C15.TD11',
+           'an operand a builder writes into its template (digest size, timeout, flags) compiles to the number written or '
+           'is refused - a size that does not fit is never wrapped into another one, which would give a lock nobody can '
+           'claim (C11.R8 re-evaluated)', floor=8)
     sigfields_plumbed(w, rep, 'C15.T10')
+    signed_message_from_vm(w, rep, 'C15.T11')
     rep.explanation = (
         'Necessary structural conditions of the hash/point time-locked contracts, decided on their templates: '
         'stack compatibility with the builder-made witnesses, trusted or commitment-authenticated keys, the '
@@ -872,6 +882,11 @@ def c05_builders(w: World, rep: Report):
                     if 'aggregate_points' in h.resolved_text:
                         out.add(h.resolved_text.replace(' ', ''))
         return out
+    rep.rule('C05.R5', 'the taproot witness builders sign what the lock checks: sigflags reach the lock\'s check and the '
+             'witness\'s get_message, a hand-made signature carries its flag byte', floor=2)
+    t3_sigflags(w, rep, 'C05.R5', 'make_taproot_lock', PAIRS['make_taproot_lock'])
+    signed_message_from_vm(w, rep, 'C05.R6')
+    sigfields_plumbed(w, rep, 'C05.R7')
     a, b = root_exprs('make_taproot_lock'), root_exprs(lock)
     ok = len(a) == 1 and a == b
     rep.check('C05.R3', 'tools|native-and-nonnative-root-same-formula', ok, file=REL,
@@ -1041,3 +1056,42 @@ def sigfields_plumbed(w: World, rep: Report, rule: str):
                       ok, line=nd.line, file=REL, why=why)
     if n == 0:
         raise AnalysisError('no builder runs a signing script on a sigfields parameter')
+
+
+def signed_message_from_vm(w: World, rep: Report, rule: str, floor: int = 2):
+    """A builder that makes a signature itself (outside OP_SIGN) signs, on every path, the item a VM run of its
+    signing script left on the stack - never a message it assembled on its own: the lock's OP_CHECK_SIG
+    rebuilds the message with OP_GET_MESSAGE (index order, flag masks, signature extensions), and only the
+    same builder is guaranteed to give the same bytes for every sigfields dictionary."""
+    import ast as _ast
+    rep.rule(rule, 'every signature a builder makes outside the VM is over the item its signing run '
+             '(`run_script` of a get_message script) left on the stack, on every path', floor=floor)
+    n = 0
+    for fi in w.repo.all_funcs(['tools']):
+        if fi.parent is not None or fi.cls is not None or 'sigfields' not in fi.params:
+            continue
+        cfg = w.cfg(fi)
+        kinds = w.kinds(fi)
+
+        def signing(c):
+            if isinstance(c.func, _ast.Name) and c.func.id == 'sign_with_scalar' and len(c.args) >= 2:
+                return True
+            return isinstance(c.func, _ast.Attribute) and c.func.attr == 'sign' and len(c.args) == 1
+        for nd, c in cfg.nodes_with_call(signing):
+            n += 1
+            m = c.args[-1]
+            k = kinds.of(m, nd)
+            bad = ''
+            alts = k.alts if k.tag == 'join' else [k]
+            for a in alts:
+                st = a.stack if a.tag == 'stack_item' and getattr(a, 'how', None) == 'get' else None
+                src = st.src if st is not None and st.tag == 'unpack' and getattr(st, 'index', None) == 1 else None
+                if not (src is not None and src.tag == 'call' and src.name == 'run_script'):
+                    bad = (f'{fi.name} signs `{_ast.unparse(m)[:40]}` which on some path is {a.tag}, not the item its signing '
+                           f'run left on the stack: a message assembled by the builder need not be the one OP_GET_MESSAGE '
+                           f'rebuilds (index order of the fields, masks, extensions) and the witness is then rejected')
+                    break
+            k2 = len([1 for q, _ in cfg.nodes_with_call(signing) if q.id <= nd.id])
+            rep.check(rule, f'tools.{fi.name}|sign@{k2}|message-is-the-vm-item', not bad, line=nd.line, file=REL, why=bad)
+    if n == 0:
+        raise AnalysisError('no builder makes a signature outside the VM any more (inventory changed)')
